@@ -4,7 +4,7 @@ CONSTANTS
   GKeys = {1}
   MaxHeld = 1
   Bugs = {"nodirty_t"}
-  Depth = 5
+  Depth = 4
   Types = {"bits", "indexed", "gradient", "solid"}
 CONSTRAINT DepthBound
 VIEW MCView
